@@ -274,6 +274,11 @@ func (h *Handler) Serve(ctx context.Context, conn *websocket.Conn) {
 		}
 		h.onClose(conn)
 		conn.Close()
+		// under fasthttp Close is a no-op until the hijack handler returns:
+		// expire the deadlines so that a loop blocked in I/O ends all the same
+		now := time.Now()
+		_ = conn.SetReadDeadline(now)
+		_ = conn.SetWriteDeadline(now)
 		// nothing may touch conn once Serve has returned: under fasthttp the
 		// connection object goes back to a pool and serves the next client
 		loops.Wait()
